@@ -3,9 +3,9 @@ from __future__ import annotations
 
 import ast
 
-from ..astu import U, walk_shallow, call_name, calls_in, kwarg, names_in
+from ..astu import U, has, walk_shallow, call_name, calls_in, kwarg, names_in
 from ..core import AnalysisError, Mutant, Rule, Twin
-from ..idioms import for_loops, target_names
+from ..idioms import for_loops, target_names, none_default
 
 ID = "C04"
 ODE = "chempy/kinetics/ode.py"
@@ -282,12 +282,82 @@ def r5_invariants(ctx):
         ctx.check(ok, ODE + ":" + q, "linear_invariants", "linear_invariants must be the first result of rsys.composition_balance_vectors()", node=fn)
 
 
+def r6_config_skeleton(ctx):
+    """which configuration switch selects which arm: the builders differ between configurations only in which symbols stay free"""
+    fn = ctx.func(ODE, "get_odesys")
+    a = ODE + ":get_odesys"
+
+    def chk(fragment, key, msg, scope=fn, node=None, anchor=a):
+        ctx.check(has(scope, fragment), anchor, key, msg + " (expected `%s`)" % fragment, node=node or scope)
+
+    chk("substitutions = substitutions or {}", "substitutions-kept", "given substitutions must be used, only a missing mapping becomes {}")
+    chk("('feedratio', OrderedDict([(sk, 'fc_' + sk) for sk in rsys.substances])) if cstr is True else cstr", "cstr-default",
+        "cstr=True means the default feed naming, anything else is taken as the (ratio key, feed map) pair")
+    chk("if cstr_fr_fc: _ori_pk.add(cstr_fr_fc[0]) for k in cstr_fr_fc[1].values(): _ori_pk.add(k)", "cstr-keys-are-parameters",
+        "the feed-ratio key and every feed-concentration key must become parameter keys")
+    chk("if sk not in _ori_pk and sk not in _ori_uk: raise ValueError(", "unknown-substitution-refused", "a substitution for a key that no rate expression uses must be refused")
+    chk("if isinstance(sv, Expr): _subst_pk.update(sv.parameter_keys) _active_subst[sk] = sv if not include_params: _reg_unique(sv)", "active-substitution-arm",
+        "an Expr substitution is evaluated at run time; its own parameters become parameters and (params free) its unique keys are registered")
+    chk("_passive_subst[sk] = sv", "passive-substitution-arm", "a plain value is substituted as is")
+    chk("for pk in filter(lambda x: x not in substitutions and x != 'time', _ori_pk.union(_subst_pk)):", "parameter-key-set",
+        "parameters are the parameter keys of all rate expressions and substitutions, minus substituted keys and 'time'")
+    chk("if hasattr(constants, pk): const = getattr(constants, pk)", "constants-inlined", "keys naming physical constants are bound to the constant")
+    chk("_passive_subst[pk] = const else: all_pk.append(pk)", "constant-or-parameter", "a key is either bound to its constant or listed as a free parameter")
+    chk("if not include_params: for rxn, ratex in zip(rsys.rxns, r_exprs): _reg_unique(ratex, rxn)", "unique-registered-iff-params-free",
+        "rate constants become named free parameters exactly when include_params is false")
+    ru = ctx.func(ODE, "get_odesys._reg_unique")
+    ar = ODE + ":get_odesys._reg_unique"
+    n_guard = 0
+    for st in walk_shallow(ru):
+        if isinstance(st, ast.Assign) and isinstance(st.targets[0], ast.Subscript) and U(st.targets[0].value) == "unique":
+            key = U(st.targets[0].slice)
+            par = [i for i in walk_shallow(ru) if isinstance(i, ast.If) and any(x is st for x in i.body)]
+            ok = len(par) == 1 and U(par[0].test) == "%s not in substitutions" % key
+            n_guard += 1
+            ctx.check(ok, ar, "unique-unless-substituted:%d" % n_guard, "a unique key is registered unless the caller substitutes it; guard is `%s`" % (U(par[0].test) if par else None), node=st)
+    if n_guard < 4:
+        raise AnalysisError("_reg_unique: only %d stores into `unique`" % n_guard)
+    chk("if not isinstance(expr, Expr): raise NotImplementedError(", "expr-only", "only Expr rate expressions can be registered", scope=ru, anchor=ar)
+    chk("if isinstance(arg, Expr): _reg_unique(arg, rxn=rxn) elif expr.unique_keys is not None and idx < len(expr.unique_keys):", "nested-or-own-key",
+        "nested expressions are registered recursively, plain arguments under their own unique key when there is one", scope=ru, anchor=ar)
+    chk("if expr.args is None: for idx, k in enumerate(expr.unique_keys): if k not in substitutions: unique[k] = None", "argless-keys-free",
+        "an expression without stored arguments exposes all its unique keys as free parameters (value None)", scope=ru, anchor=ar)
+
+    # alternative builder
+    fn2 = ctx.func(ODE, "_create_odesys")
+    a2 = ODE + ":_create_odesys"
+    d = none_default(fn2, "substance_symbols")
+    ctx.check(d is not None and has(d, "OrderedDict([(key, backend.Symbol(key)) for key in rsys.substances])", scope=fn2), a2, "default-substance-symbols",
+              "given symbols are used as given; the default is one symbol per substance key in substance order", node=fn2)
+    chk("if isinstance(substance_symbols, OrderedDict): if list(substance_symbols) != list(rsys.substances): raise ValueError(", "symbol-order-checked",
+        "ordered symbols must be in substance order", scope=fn2, anchor=a2)
+    d = none_default(fn2, "parameter_symbols")
+    ctx.check(d is None and has(fn2, "if parameter_symbols is None: keys = []", scope=fn2), a2, "default-parameter-symbols", "parameter symbols are derived only when not given", node=fn2)
+    chk("if isinstance(rxnpar, str): if rxnpar in (parameter_expressions or {}): for pk in parameter_expressions[rxnpar].all_parameter_keys(): keys.append(pk) else: keys.append(rxnpar)",
+        "named-parameter-arm", "a named rate constant is a parameter unless an expression overrides it (then that expression's parameters are)", scope=fn2, anchor=a2)
+    chk("elif isinstance(rxnpar, Expr): keys.extend(rxnpar.all_unique_keys()) for pk in rxnpar.all_parameter_keys(): if pk not in keys: keys.append(pk)",
+        "expr-parameter-arm", "an Expr contributes its unique keys and its parameter keys once", scope=fn2, anchor=a2)
+    chk("if rates_kw and 'cstr_fr_fc' in rates_kw: flowrate_volume, feed_conc = rates_kw['cstr_fr_fc'] keys.append(flowrate_volume) keys.extend(feed_conc.values())",
+        "cstr-keys-are-parameters", "stirred-tank keys are parameters", scope=fn2, anchor=a2)
+    chk("if len(keys) != len(set(keys)): raise ValueError(", "duplicate-keys-refused", "duplicate parameter keys must be refused", scope=fn2, anchor=a2)
+    chk("parameter_symbols = OrderedDict([(key, backend.Symbol(key)) for key in keys])", "one-symbol-per-key", "one symbol per parameter key, named by the key", scope=fn2, anchor=a2)
+    chk("varbls.update(parameter_expressions or {})", "overrides-applied", "parameter expressions override the plain symbols", scope=fn2, anchor=a2)
+    chk("rates = rsys.rates(varbls, **(rates_kw or {}))", "rhs-from-rsys.rates", "the right-hand side is rsys.rates on the symbols", scope=fn2, anchor=a2)
+    chk("if any(symbols['time'] == v for k, v in symbols.items() if k != 'time'): raise ValueError(", "time-symbol-clash-refused", "a time symbol equal to another symbol must be refused", scope=fn2, anchor=a2)
+    cs = [c for c in ast.walk(fn2) if isinstance(c, ast.Call) and call_name(c) == "SymbolicSys"]
+    for c in cs:
+        for kw in ("dep_by_name", "par_by_name"):
+            v = kwarg(c, kw)
+            ctx.check(isinstance(v, ast.Constant) and v.value is True, a2, "kw:" + kw, "%s must be True (values are paired with names)" % kw, node=c)
+
+
 RULES = [
     Rule("C04-R1", r1_rate_list, 9, "rate list aligned with reactions in every definition and consumer"),
     Rule("C04-R2", r2_names_order, 13, "names/symbols/expressions in substance order; name/value pairings"),
     Rule("C04-R3", r3_sibling_closures, 6, "dydt and reaction_rates perform the same ordered writes to variables"),
     Rule("C04-R4", r4_param_units, 14, "parameter names/units arms; unique-key registration index alignment"),
     Rule("C04-R5", r5_invariants, 2, "composition vectors handed to linear_invariants"),
+    Rule("C04-R6", r6_config_skeleton, 25, "configuration switches select the intended arms in both builders"),
 ]
 
 MUTANTS = [
